@@ -25,7 +25,7 @@ Parts
      EVERY injective partial rename into names + 2 fresh names not colliding with an unrenamed block.
   B  random compositions (length 1..4 of reorder / reorder(geo) / rename via grid / via t2data / inverted),
      optionally followed by write/read, on grids of up to ~300 blocks (rectangular with tilt, uneven surface,
-     refined = triangles, shipped g7 reduced, gmsh, radial).
+     shipped g7 reduced = triangles and quadrilaterals, gmsh, radial).
   C  MINC: 2..6 fractions (normalised or not), 1..3 plane sets, spacing {1, 50, 1e3} scalar or per plane set,
      full / explicit / partial selection by name or by block object, default or custom matrix names.
   D  embed: sub-grid volume below / equal / above the host block volume, clashing names.
@@ -33,6 +33,11 @@ Parts
 import sys, os, json, time, random, itertools, math, tempfile, shutil, io, contextlib
 import warnings
 warnings.filterwarnings('ignore')
+if __name__ == '__main__' and os.environ.get('PYTHONHASHSEED') != '0':
+    # the library iterates over sets of names (e.g. t2grid.check picks max(set(...))); pin the string hash so
+    # that the output is a function of <tier> <seed> only
+    os.environ['PYTHONHASHSEED'] = '0'
+    os.execv(sys.executable, [sys.executable, '-W', 'ignore'] + sys.argv)
 REPO = os.environ.get('PYTOUGH_REPO', '/repo')
 sys.path.insert(0, REPO)
 import numpy as np
@@ -206,6 +211,33 @@ def lookup_agreement(g):
 # geometries and grids (descriptor -> objects), deterministic
 
 
+
+def canon_geo(geo):
+    """mulgrid.refine / from_gmsh / reduce go through sets of objects, so the ORDER and ORIENTATION of the
+    geometry's column connections differ from run to run; re-add them sorted by name so that the harness
+    output is a function of <tier> <seed> only."""
+    cons = list(geo.connectionlist)
+    pairs = sorted(tuple(sorted((c.column[0].name, c.column[1].name))) for c in cons)
+    for c in cons:
+        geo.delete_connection((c.column[0].name, c.column[1].name))
+    for a, b in pairs:
+        geo.add_connection(connection([geo.column[a], geo.column[b]]))
+    geo.identify_neighbours()
+    geo.setup_block_name_index()
+    geo.setup_block_connection_name_index()
+    return geo
+
+
+def ordered_reduce(geo, keep):
+    """mulgrid.reduce with a deterministic order of deletion."""
+    keepnames = set(c.name for c in keep)
+    for name in [c.name for c in geo.columnlist if c.name not in keepnames]:
+        geo.delete_column(name)
+    geo.check(fix=True, silent=True)
+    geo.setup_block_name_index()
+    geo.setup_block_connection_name_index()
+
+
 _geocache = {}
 
 
@@ -228,7 +260,7 @@ def build_geometry(desc):
             geo.refine([geo.columnlist[i] for i in desc['refine']])
     elif kind == 'g7':
         geo = mulgrid(os.path.join(REPO, 'tests', 'mulgrid', 'g7.dat'))
-        geo.reduce(geo.columnlist[desc['start']:desc['start'] + desc['count']])
+        ordered_reduce(geo, geo.columnlist[desc['start']:desc['start'] + desc['count']])
         for lay in [l.name for l in geo.layerlist[1 + desc['layers']:]]:
             geo.delete_layer(lay)
         for col in geo.columnlist:
@@ -241,12 +273,12 @@ def build_geometry(desc):
             geo.setup_block_connection_name_index()
     elif kind == 'gmsh':
         geo = mulgrid().from_gmsh(os.path.join(REPO, 'tests', 'mulgrid', 'gmsh2_2.msh'), desc['dz'], atmos_type=desc['atm'])
-        geo.reduce(geo.columnlist[:desc['count']])
+        ordered_reduce(geo, geo.columnlist[:desc['count']])
     elif kind == 'radial':
         geo = None
     else:
         raise ValueError(kind)
-    return geo
+    return canon_geo(geo) if geo is not None else geo
 
 
 def build_grid(desc):
@@ -605,7 +637,7 @@ def random_desc(rnd):
                 break
         desc = {'kind': 'rect', 'dx': [10. + 3 * i for i in range(nx)], 'dy': [20. + 5 * (j % 2) for j in range(ny)],
                 'dz': [5. + 2 * k for k in range(nz)], 'atm': rnd.choice([0, 1, 2])}
-        extra = rnd.choice(['', '', 'surface', 'tilt', 'angle', 'refine', 'tilt+surface'])
+        extra = rnd.choice(['', '', 'surface', 'tilt', 'angle', 'tilt+surface'])   # (mulgrid.refine is run-dependent: not used)
         if 'surface' in extra and nz > 1:
             desc['surface'] = [rnd.choice([0., -3., -6., -8.]) for _ in range(5)]
         if 'tilt' in extra:
